@@ -1,5 +1,6 @@
 import Dlismodel.Model.Cast
 import Dlismodel.Proofs.Prim
+import Dlismodel.Proofs.Convert
 namespace Dlis
 
 theorem pow256_pos (k : Nat) : (0 : Int) < (256 : Int) ^ k := Int.pow_pos (by decide)
@@ -56,5 +57,22 @@ theorem decInt_encInt (t : IntTy) (hb : 0 < t.bytes) (v : Int) (bs rest : Bytes)
   cases hs : t.signed
   · simp only [hs, Bool.false_eq_true, if_false] at h ⊢; exact decU_encU h rest
   · simp only [hs, if_true] at h ⊢; exact decS_encS hb h rest
+
+theorem holds_natAbs_lt (t : IntTy) (v : Int) (h : t.holds v) : v.natAbs < 256 ^ t.bytes := by
+  have hp := pow256_pos t.bytes
+  have hc := pow_cast t.bytes
+  unfold IntTy.holds at h
+  cases hs : t.signed
+  · simp only [hs, Bool.false_eq_true, if_false] at h; omega
+  · simp only [hs, if_true] at h; omega
+
+/-- every value of a supported integer type (1, 2 or 4 bytes) becomes the double that stands for exactly that value -/
+theorem castIntToF64_exact (t : IntTy) (hb : t.bytes ≤ 4) (v : Int) (h : t.holds v) :
+    ∃ f, castIntToF64 v = some f ∧ f64ToInt f = some v := by
+  have h1 := holds_natAbs_lt t v h
+  have h2 : 256 ^ t.bytes ≤ 256 ^ 4 := Nat.pow_le_pow_right (by decide) hb
+  exact intToF64R_exact v (by
+    have : (256 : Nat) ^ 4 ≤ 2 ^ 53 := by decide
+    omega)
 
 end Dlis
